@@ -17,7 +17,7 @@ RULE = ('Inputs: the suite\'s fixture documents and small generated documents of
         'non-trivial = distinct mutated inputs that still begin with a well-formed ISA.')
 ASSUMPTIONS = ['path-based sources are not used here (C01/C20 cover them); sinks are StringIO',
                'the step budget is 2e6 + 2000*len(text) Python function entries per run (deterministic); the wall-clock watchdog only yields inconclusive']
-REQUIRED_COUNTERS = ['runs:x12n_document', 'runs:reader', 'runs:context', 'outcome:bool', 'outcome:refused', 'inputs:mutated', 'inputs:hostile-numeral-in-count', 'inputs:fuzz', 'inputs:envelope-soup', 'inputs:catalogue-faults', 'inputs:catalogue-faults:qualified-datetime', 'inputs:directed-pattern-fault', 'config:simple_dtd', 'config:exclude_external_codes', 'config:map_path', 'sinks:ack+html+xml', 'sinks:none']
+REQUIRED_COUNTERS = ['runs:x12n_document', 'runs:reader', 'runs:context', 'outcome:bool', 'outcome:refused', 'inputs:mutated', 'inputs:hostile-numeral-in-count', 'inputs:composite-cut-short', 'inputs:fuzz', 'inputs:envelope-soup', 'inputs:catalogue-faults', 'inputs:catalogue-faults:qualified-datetime', 'inputs:directed-pattern-fault', 'config:simple_dtd', 'config:exclude_external_codes', 'config:map_path', 'sinks:ack+html+xml', 'sinks:none']
 MIN_CASES = {'quick': 1200, 'thorough': 40000}
 WATCHDOG_S = {'quick': 1200, 'thorough': 7200}
 
@@ -230,6 +230,8 @@ def run(ctx):
                 text, names_ = mutate.mutate(rng, base)
             case = {'base': bname, 'mutations': names_, 'gen': ['c07', ctx.shard, k], 'text': text if len(text) <= 6000 else None, 'text_len': len(text)}
             ctx.count('inputs:mutated')
+            if 'component-cut' in names_:
+                ctx.count('inputs:composite-cut-short')
             if 'counts:hostile-numeral' in names_:
                 ctx.count('inputs:hostile-numeral-in-count')
         one_input(ctx, text, k, case, sigs)
